@@ -32,9 +32,9 @@ theorem spec_delAccMeta (now : Time) (strict : Bool) (n : Nat) (sv a key : Strin
     specStep (view d1) (mkLog lid p now ik ihash sv) = view d2 := by
   simp only [body, eval, exec, Option.some.injEq, Prod.mk.injEq] at h
   obtain ⟨rfl, rfl, _⟩ := h
-  simp only [specStep, mkLog, view, deleteAccountMeta_step, (deleteAccountMeta_frame d1 a key).1]
-  have : projTxMeta (deleteAccountMeta a key d1) = projTxMeta d1 := by
-    unfold projTxMeta; rw [(deleteAccountMeta_frame d1 a key).2]
+  simp only [specStep, mkLog, view, deleteAccountMeta_step, (deleteAccountMeta_frame now d1 a key).1]
+  have : projTxMeta (deleteAccountMeta now a key d1) = projTxMeta d1 := by
+    unfold projTxMeta; rw [(deleteAccountMeta_frame now d1 a key).2]
   rw [this]
   cases (projAccounts d1).get? a <;> rfl
 
